@@ -126,7 +126,7 @@ def run(chk):
             v = st.get(node.args[0].id)
             n_app += 1
             if isinstance(v, poolpaths.Obj) and v.origin.startswith("popped"):
-                fresh = st.get("fresh", None)
+                fresh = v.fresh
                 r4.expect(fresh is True, "get(): a popped object reaches the used deque only after passing the idle test", "ObjectPool.get:expired-object-handed-out", "an object popped from the free list reaches `%s` on a path where the idle test %s: an expired connection is handed out" % (node_src(node), "failed" if fresh is False else "was not evaluated"), fn=fn, node=node)
             elif isinstance(v, poolpaths.Obj) and v.origin == "created":
                 r4.ok("get(): a freshly created object reaches the used deque", sample=False)
